@@ -230,6 +230,70 @@ Stress == {
   [pre |-> "(",    n |-> 50,   mid |-> "1",  post |-> ")",  tail |-> ""]
 }
 
+(* PUMP family ("no call hangs" for EVERY input string, long ones included):   *)
+(* the text  head unit^n mid post^n tail  for n in PumpCounts.  Every pump has *)
+(* a breaking head/tail, so that by the grammar its outcome CLASS (tree or     *)
+(* coded error) does not depend on n (inv = TRUE); PumpLaw is what the harness *)
+(* checks on the real parsers, together with the 10 s watchdog: parse time     *)
+(* must stay bounded when a token is pumped (tokenizer patterns must not       *)
+(* backtrack exponentially on unterminated literals / comments).               *)
+PumpCounts == {1, 30, 200}
+P(id, head, unit, mid, post, tail, inv) ==
+  [id |-> id, head |-> head, unit |-> unit, mid |-> mid, post |-> post, tail |-> tail, inv |-> inv]
+Pumps == {
+  P("sq-unterminated",        "'",        "a",    "", "", "",         TRUE),
+  P("dq-unterminated",        "\"",       "a",    "", "", "",         TRUE),
+  P("sq-unterminated-doubled", "'",       "a''",  "", "", "",         TRUE),
+  P("dq-unterminated-doubled", "\"",      "a\"\"", "", "", "",        TRUE),
+  P("sq-unterminated-other",  "'",        "\"b",  "", "", "",         TRUE),
+  P("dq-unterminated-other",  "\"",       "'b",   "", "", "",         TRUE),
+  P("sq-unterminated-pairs",  "'",        "''",   "", "", "",         TRUE),
+  P("sq-unterminated-uri",    "compare('a', 'b', 'http://", "w", "", "", "?lang=de)", TRUE),
+  P("sq-unterminated-pred",   "a[@x='",   "v",    "", "", "]",        TRUE),
+  P("sq-unterminated-mixed",  "concat('", "a 1.5e+3 (: x :) ", "", "", ", 1)", TRUE),
+  P("sq-terminated",          "'",        "a",    "'", "", "",        TRUE),
+  P("sq-terminated-doubled",  "'",        "a''",  "'", "", "",        TRUE),
+  P("quote-pairs",            "",         "''",   "", "", "",         TRUE),
+  P("comment-unterminated",   "1 (:",     " c",   "", "", "",         TRUE),
+  P("comment-unterminated-nested", "1 ",  "(: ",  "", "", "",         TRUE),
+  P("comment-unterminated-colons", "1 (:", ":",   "", "", "",         TRUE),
+  P("comment-terminated",     "1 (:",     " c",   " :)", "", "",      TRUE),
+  P("digits-break",           "",         "1",    "", "", " ~",       TRUE),
+  P("digits",                 "",         "1",    "", "", "",         TRUE),
+  P("dots",                   "1..",      ".",    "", "", "",         TRUE),
+  P("decimal-digits",         "1.",       "5",    "", "", "",         TRUE),
+  P("e-run",                  "1",        "e",    "", "", "",         TRUE),
+  P("exponent-digits-break",  "1e",       "9",    "", "", " ~",       TRUE),
+  P("exponent-digits",        "1.5e",     "1",    "", "", "",         FALSE),   \* INF or FOAR0002: implementation-defined
+  P("exponent-signs",         "1e+",      "+",    "", "", "1",        TRUE),
+  P("name-break",             "",         "a",    "", "", " ~",       TRUE),
+  P("name-dashes",            "a",        "-",    "", "", " ~",       TRUE),
+  P("prefix-long",            "",         "p",    "", "", ":a",       TRUE),
+  P("colons",                 "a",        ":",    "", "", "b",        FALSE),   \* a:b is a QName, a::b an unknown axis
+  P("braced-uri-unterminated", "Q{",      "u",    "", "", "",         TRUE),
+  P("braced-uri-open-braces", "Q{",       "{",    "", "", "}a",       TRUE),
+  P("parens-nested",          "",         "(",    "1", ")", "",       TRUE),
+  P("parens-unclosed",        "",         "(",    "1", "", "",        TRUE),
+  P("parens-unopened",        "1",        ")",    "", "", "",         TRUE),
+  P("brackets-unclosed",      "a",        "[",    "1", "", "",        TRUE),
+  P("braces-unclosed",        "map",      "{",    "", "", "",         TRUE),
+  P("slashes",                "a",        "/",    "", "", "",         TRUE),
+  P("minus-break",            "",         "-",    "", "", " ~",       TRUE),
+  P("whitespace",             "1",        " ",    "", "", "+",        TRUE),
+  P("newlines",               "1",        "\n",   "", "", "+",        TRUE),
+  P("dollars",                "",         "$",    "", "", "a",        FALSE),
+  P("at-signs",               "",         "@",    "", "", "a",        FALSE),
+  P("hashes",                 "a",        "#",    "", "", "1",        FALSE),
+  P("question-marks",         "a",        "?",    "", "", "",         FALSE),
+  P("lt-chain",               "1",        " < 1", "", "", " <",       TRUE),
+  P("arrow-chain",            "1",        " =>",  "", "", "",         TRUE),
+  P("bang-chain",             "1",        "!",    "", "", "",         TRUE),
+  P("bars",                   "'a'",      "|",    "", "", "",         TRUE)
+}
+(* PumpLaw (checked by the harness per parser version, it quantifies over the real parse):   *)
+(*   \A p \in Pumps, n \in PumpCounts : p.inv => Class(parse(Text(p, n))) = Class(parse(Text(p, 1))) *)
+(*   where Text(p, n) = head unit^n mid post^n tail and Class is "value" or "err" (Outcome.tla) *)
+
 (* printed once at start-up: the outcome oracle sets and the mutation plan *)
 ASSUME PrintOracle == /\ PrintT(<<"legal_parse", O!LegalShapes("parse")>>)
                       /\ PrintT(<<"legal_eval", O!LegalShapes("eval")>>)
@@ -239,7 +303,7 @@ ASSUME PrintOracle == /\ PrintT(<<"legal_parse", O!LegalShapes("parse")>>)
 (* hold tuples):  EXTENDS Tokens,  GenLens == <<n1, n2, ...>>  (token counts only) and  *)
 (*   ASSUME \A k \in 1..Len(GenLens) : ExprChosen(k) => PrintT(<<"mut", k, Chosen(k, GenLens[k])>>) *)
 (* The same module prints the seed plan <<"seedmut", k, Seeds[k], MutOps(Len(Seeds[k]), Alphabet)>>  *)
-(* and <<"stress", Stress>>.                                                                        *)
+(* <<"stress", Stress>>, <<"pumps", Pumps>> and <<"pump_counts", PumpCounts>>.                     *)
 
 (* self-check vectors for the harness' 1:1 application of descriptors *)
 ApplyVectors == Len(seq) = 2 => PrintT(<<"apply", seq, {<<m, Apply(seq, m)>> : m \in MutOps(2, {"a", "("})}>>)
